@@ -150,6 +150,11 @@ def runOp (op : String) (dbg : Bool) (a : List String) : Option (Out × Out) := 
     let sp : Out := if overCap t src.len then .err "NotEnoughCapacity" else .ok [.sv src.abs]
     pure (resV (convert t src), sp)
   -- element access / edits ---------------------------------------------------------------------------------
+  | "bitconv", [x] =>      -- Bit::from(x), uN::from(bit), bool::from(bit), Bit::from(bool)
+    let (_, x) ← parseUInt x
+    let b := x != 0
+    let r : Out := .ok [.bool b, .nat (if b then 1 else 0), .bool b, .bool b]
+    pure (r, r)
   | "get", [v, i] =>
     let v ← parseVec v; let i ← i.toNat?
     if i ≥ v.len then (if dbg then pure (.panic, .panic) else none) else
